@@ -58,6 +58,100 @@ pub fn stale_helper() -> ConcCase {
     }
 }
 
+/// F7 (C03/C04): `transfer` publishes the new bins of old bin `i` in the next table *before* it
+/// stores the forwarding marker into old bin `i`. `clear()` jumps to the next table as soon as it
+/// meets any forwarding marker; there it empties the freshly published bins and retires their
+/// nodes and values — which are still reachable from old bin `i` of the table that is still
+/// `self.table`. A reader that pins a guard afterwards reaches them through the old bin and holds
+/// references into memory that is freed as soon as the resizer's guard goes away.
+///
+/// 32 bins / 23 entries, identity hashes. A's insert starts the resize and claims the upper
+/// stride; H joins, forwards the lower half and leaves; A becomes the finisher, sweeps down to
+/// bin 21 = [21 -> 53] and is suspended between publishing the two new bins and forwarding the
+/// old one; C clears; R reads key 21.
+pub fn clear_in_transfer_window() -> ConcCase {
+    let mut origin = 700u32;
+    let mut fresh = || {
+        origin += 1;
+        origin
+    };
+    let mut prefill: Vec<(u32, u64, u32)> = (1..=21u32).map(|k| (k, 0, fresh())).collect();
+    prefill.push((33, 0, fresh()));
+    prefill.push((34, 0, fresh()));
+    let a = vec![COp::Ins(53, 1, fresh())];
+    let h = vec![COp::Ins(67, 2, fresh())];
+    let c = vec![COp::Clear];
+    let r = vec![COp::Get(21), COp::Get(53)];
+    let script = vec![
+        // A: 24th entry: initiates the resize, installs the next table, claims [16,32)
+        ScriptStep { tid: 0, until: Until::Done { kind: Kind::Cas, what: "transfer_index", rel: Rel::Any, count: 1 } },
+        // H: joins, claims [0,16), forwards the lower bins, leaves
+        ScriptStep { tid: 1, until: Until::Finished },
+        // A: becomes the finisher, sweeps 31..22, splits bin 21 and publishes both new bins
+        // (its stores into bin cells: the append of its own insert, then the two new bins)
+        ScriptStep { tid: 0, until: Until::Done { kind: Kind::Store, what: "BinEntry", rel: Rel::Any, count: 3 } },
+        // C: clear meets a forwarding marker in bin 0, continues on the next table
+        ScriptStep { tid: 2, until: Until::Finished },
+        // R: a reader that starts after `clear` returned
+        ScriptStep { tid: 3, until: Until::Finished },
+        ScriptStep { tid: 0, until: Until::Finished },
+    ];
+    ConcCase {
+        id: 1,
+        seed: 0xF7,
+        hash_class: "scenario:clear-in-transfer-window",
+        hashes: ident_hashes(128),
+        cap: 16,
+        prefill,
+        programs: vec![a, h, c, r],
+        policy: Policy::Script(script),
+        pin: false,
+    }
+}
+
+/// F5 (C07): a tree bin with a single node (produced by a `treeify_bin` that runs after the bin
+/// has shrunk again) whose node is being removed: `remove_tree_node` stores `first = null` before
+/// its caller replaces the bin; an iterator arriving in between read `first` without a null test.
+///
+/// all-equal hashes, 128 bins, keys 1..=8. A inserts key 9 and is held at the lock acquisition
+/// of `treeify_bin`; B removes 2..=9; A treeifies the one remaining node; C removes key 1 and is
+/// held after `first.store(null)`; D iterates.
+pub fn null_first_iter() -> ConcCase {
+    let mut origin = 900u32;
+    let mut fresh = || {
+        origin += 1;
+        origin
+    };
+    let prefill: Vec<(u32, u64, u32)> = (1..=8u32).map(|k| (k, 0, fresh())).collect();
+    let a = vec![COp::Ins(9, 1, fresh())];
+    let b: Vec<COp> = (2..=9u32).map(COp::Rm).collect();
+    let c = vec![COp::Rm(1)];
+    let d = vec![COp::Iter];
+    let script = vec![
+        // A: appended key 9 under the bin lock (one store into a `next` cell) …
+        ScriptStep { tid: 0, until: Until::Done { kind: Kind::Store, what: "BinEntry", rel: Rel::Any, count: 1 } },
+        // … and is about to take the lock again in treeify_bin
+        ScriptStep { tid: 0, until: Until::Pending { kind: Kind::BeforeLock, what: "", rel: Rel::Any } },
+        ScriptStep { tid: 1, until: Until::Finished },
+        ScriptStep { tid: 0, until: Until::Finished },
+        // C: remove_tree_node has stored `first = null`, the bin is still in the table
+        ScriptStep { tid: 2, until: Until::Done { kind: Kind::Store, what: "BinEntry", rel: Rel::Any, count: 1 } },
+        ScriptStep { tid: 3, until: Until::Finished },
+        ScriptStep { tid: 2, until: Until::Finished },
+    ];
+    ConcCase {
+        id: 2,
+        seed: 0xF5,
+        hash_class: "scenario:null-first-iter",
+        hashes: vec![0; 64],
+        cap: 64,
+        prefill,
+        programs: vec![a, b, c, d],
+        policy: Policy::Script(script),
+        pin: false,
+    }
+}
+
 pub fn all() -> Vec<(&'static str, ConcCase)> {
-    vec![("stale-helper", stale_helper())]
+    vec![("stale-helper", stale_helper()), ("clear-in-transfer-window", clear_in_transfer_window()), ("null-first-iter", null_first_iter())]
 }
